@@ -4,6 +4,7 @@ import QG.Lemmas.OptimizerSnippet
 import QG.Lemmas.OptimizerRegroup
 import QG.Spec.Register
 import QG.Lemmas.BinaryApply
+import QG.Lemmas.BinaryListOps
 
 /-!
 # C02 — gate fusion never changes what a gate list computes
@@ -243,6 +244,55 @@ example (A B : M2 R) (G : M4 R) :
       ([Raw.single A 0, Raw.pair G 2 0, Raw.padded B 1] : List (Raw (M2 R) (M4 R))) ≠ [] ∧
       (List.replicate 8 (1 : R)).length = 2 ^ 3 := by
   refine ⟨by simp [WFList, WFItem, QG.Model.Optimizer.normalize], by simp, by simp⟩
+
+/-! ### the same statements for exactly what the model driver executes
+
+The correspondence runs `optimize (listOps gint)` and `statevector gint (listOps gint) (listEntries gint)`:
+matrices as lists of rows, scalars as pairs of integers.  `listGateAlgebra` interprets such a matrix through
+its entries (`toM2`, `toM4`) and is a gate algebra for the list arithmetic (`Mat.identity`, `Mat.mul`,
+`Mat.kron2`), and `gint` is the scalar dictionary of the ring `ℤ[i]` on `Int × Int` (`gint_eq`), so the
+functions the driver runs satisfy the property — not just an idealised copy of them. -/
+
+/-- the optimizer as the driver runs it (list-of-rows matrices over any commutative semiring) -/
+theorem optimize_sem_driver (n : Nat) (level : Int) (h0 : 0 ≤ level) (h4 : level ≤ 4)
+    (raw : List (Raw (Mat R) (Mat R))) (hwf : WFList n (raw.map normalize)) :
+    ∃ l', optimize (listOps (semiringScalar R)) level n raw = .ok l' ∧ l'.length ≤ raw.length ∧ WFList n l' ∧
+      (listGateAlgebra R n).sem l' = (listGateAlgebra R n).sem (raw.map normalize) := by
+  obtain ⟨l', h1, h2, h3, h4'⟩ := optimize_sem (listGateAlgebra R n) level h0 h4 n (le_refl n) raw hwf
+  exact ⟨l', h1, h3, h4', h2⟩
+
+/-- the backend as the driver runs it -/
+theorem binary_spec_driver (N : Nat) (raw : List (Raw (Mat R) (Mat R))) (hwf : WFList N (raw.map normalize))
+    (hne : raw ≠ []) (psi : List R) (hpsi : psi.length = 2 ^ N) :
+    statevector (semiringScalar R) (listOps (semiringScalar R)) (listEntries (semiringScalar R)) N raw psi =
+      .ok (listOf ((listGateAlgebra R N).sem (raw.map normalize) (vecOf psi))) := by
+  obtain ⟨l', h1, h2, _, h4⟩ :=
+    optimize_sem (listGateAlgebra R N) 4 (by norm_num) (le_refl _) N (le_refl N) raw hwf
+  unfold statevector
+  have : raw.isEmpty = false := by
+    cases raw with
+    | nil => exact absurd rfl hne
+    | cons x xs => rfl
+  simp only [this, Bool.false_eq_true, if_false, h1]
+  rw [applyItems_list N l' h4 psi hpsi, h2]
+
+/-- … over the Gaussian integers `Int × Int` with the driver's own `gint` operations -/
+theorem binary_spec_gint (N : Nat) (raw : List (Raw (Mat GInt) (Mat GInt)))
+    (hwf : WFList N (raw.map normalize)) (hne : raw ≠ []) (psi : List GInt) (hpsi : psi.length = 2 ^ N) :
+    letI : CommSemiring GInt := gintCommRing.toCommSemiring
+    statevector gint (listOps gint) (listEntries gint) N raw psi =
+      .ok (listOf ((listGateAlgebra GInt N).sem (raw.map normalize) (vecOf psi))) := by
+  rw [gint_eq]
+  exact @binary_spec_driver GInt gintCommRing.toCommSemiring N raw hwf hne psi hpsi
+
+/-- … and the optimizer over the Gaussian integers -/
+theorem optimize_sem_gint (n : Nat) (level : Int) (h0 : 0 ≤ level) (h4 : level ≤ 4)
+    (raw : List (Raw (Mat GInt) (Mat GInt))) (hwf : WFList n (raw.map normalize)) :
+    letI : CommSemiring GInt := gintCommRing.toCommSemiring
+    ∃ l', optimize (listOps gint) level n raw = .ok l' ∧ l'.length ≤ raw.length ∧ WFList n l' ∧
+      (listGateAlgebra GInt n).sem l' = (listGateAlgebra GInt n).sem (raw.map normalize) := by
+  rw [gint_eq]
+  exact @optimize_sem_driver GInt gintCommRing.toCommSemiring n level h0 h4 raw hwf
 
 end register
 
